@@ -17,7 +17,7 @@ LEVEL = "exploration"
 TECHNIQUE = "Hypothesis-generated metafiles (tool-made, tool-made then edited, reference-encoded with extra keys and hostile names/URLs) x version request; URI parsed at byte level and compared with hashes of the raw info span located by the strict decoder ; thorough tier adds a coverage-guided (atheris/libFuzzer) stage over the same strategy"
 RULE = ("Cases: metafile source (own creators all versions with options; own then 1-2 edits, optionally followed by the interactive editor with or without a change; reference-encoded v1/v2/hybrid with extra "
         "keys incl. non-UTF-8 byte strings in info and at top level, names and URLs containing space & = % + # ? / : ; and non-ASCII, "
-        "announce only / single-tier / multi-tier announce-list / none, url-list as list / string / absent) x version request (0; "
+        "announce only / single-tier / multi-tier announce-list / none, url-list as list / string / absent; in reference-encoded metafiles tracker and web-seed URLs may contain inner spaces) x version request (0; "
         "1,2,3 for hybrids; 2 for v2-only; 1 for v1) x route (magnet() / CLI `magnet`, `m`). Oracle: URI starts with magnet:?; xt "
         "multiset = btih:SHA-1(raw info span) when v1 content is wanted, btmh:1220+SHA-256(raw info span) when v2 content is wanted; "
         "dn, tr, ws percent-decode (byte level, + as space) to the name, all tracker URLs in order (announce-list flattened, else "
